@@ -49,6 +49,10 @@ func (b hBackend) ReceiveMinedHeader(wo *types.WorkObject) error {
 	return nil
 }
 
+// errHierStuck: the coordinator (this harness) could not get a block appended; a limitation of the harness's
+// scheduling of the asynchronous parts of the node, not a verdict about the node
+var errHierStuck = fmt.Errorf("hierarchy coordinator stuck")
+
 type hLevel struct {
 	loc      common.Location
 	db       ethdb.Database
@@ -61,7 +65,10 @@ type hLevel struct {
 }
 
 type hier struct {
-	prime, region, zone *hLevel
+	prime, region, zone *hLevel   // zone: the first zone (the one chainworld drives)
+	zones               []*hLevel // every zone of the region (one, or two when the network starts at expansion 1)
+	retries             int               // how often an insert had to be repeated
+	primePH             *types.WorkObject // prime's pending header on its tip (carries the exchange rate derived from the tip)
 	eng                 consensus.Engine
 	ghash               common.Hash
 	nextDt              uint64
@@ -69,12 +76,17 @@ type hier struct {
 	nextData            []byte
 }
 
-func newHLevel(db ethdb.Database, loc common.Location, allocs []params.GenesisAccount) (*hLevel, common.Hash, consensus.Engine, error) {
+func newHLevel(db ethdb.Database, loc common.Location, allocs []params.GenesisAccount, nzones int) (*hLevel, common.Hash, consensus.Engine, error) {
 	logger := log.Global
 	gen := core.DefaultLocalGenesisBlock("blake3", 0, nil)
 	gen.Difficulty = big.NewInt(3000)
 	gen.Timestamp = chainGenesisTime
-	cfg0, ghash, err := core.SetupGenesisBlock(db, gen, 0, nil, loc, logger)
+	expansion := uint64(nzones - 1) // expansion 0: one region with one zone; expansion 1: one region with two zones
+	var slices []common.Location
+	for z := 0; z < nzones; z++ {
+		slices = append(slices, common.Location{0, byte(z)})
+	}
+	cfg0, ghash, err := core.SetupGenesisBlockWithOverride(db, gen, 0, nil, loc, expansion, logger)
 	if err != nil {
 		return nil, common.Hash{}, nil, fmt.Errorf("genesis %v: %w", loc, err)
 	}
@@ -89,7 +101,7 @@ func newHLevel(db ethdb.Database, loc common.Location, allocs []params.GenesisAc
 	tcfg.Journal = ""
 	tcfg.ReorgFrequency = 2 * time.Millisecond
 	var lim uint64
-	cr, err := core.NewCore(db, mcfg, pow, &tcfg, &lim, &chainCfg, []common.Location{{0, 0}}, 0, nil, eng, &core.CacheConfig{TrieCleanLimit: 16, TrieDirtyLimit: 16, TrieTimeLimit: time.Minute}, vm.Config{}, gen, logger)
+	cr, err := core.NewCore(db, mcfg, pow, &tcfg, &lim, &chainCfg, slices, uint8(expansion), nil, eng, &core.CacheConfig{TrieCleanLimit: 16, TrieDirtyLimit: 16, TrieTimeLimit: time.Minute}, vm.Config{}, gen, logger)
 	if err != nil {
 		return nil, common.Hash{}, nil, fmt.Errorf("core %v: %w", loc, err)
 	}
@@ -97,41 +109,75 @@ func newHLevel(db ethdb.Database, loc common.Location, allocs []params.GenesisAc
 	return l, ghash, eng[0], nil
 }
 
-func newHier(allocs []params.GenesisAccount) (*hier, error) {
+func newHier(allocs []params.GenesisAccount) (*hier, error) { return newHierN(allocs, 1) }
+
+func newHierN(allocs []params.GenesisAccount, nzones int) (*hier, error) {
 	mk := func(loc common.Location) ethdb.Database {
 		return rawdbWithLoc(loc)
 	}
-	p, gp, _, err := newHLevel(mk(common.Location{}), common.Location{}, allocs)
+	p, gp, _, err := newHLevel(mk(common.Location{}), common.Location{}, allocs, nzones)
 	if err != nil {
 		return nil, err
 	}
-	r, gr, _, err := newHLevel(mk(common.Location{0}), common.Location{0}, allocs)
+	r, gr, _, err := newHLevel(mk(common.Location{0}), common.Location{0}, allocs, nzones)
 	if err != nil {
 		return nil, err
 	}
-	z, gz, eng, err := newHLevel(mk(common.Location{0, 0}), common.Location{0, 0}, allocs)
-	if err != nil {
-		return nil, err
+	if gp != gr {
+		return nil, fmt.Errorf("genesis hashes differ: %x %x", gp[:4], gr[:4])
 	}
-	if gp != gr || gr != gz {
-		return nil, fmt.Errorf("genesis hashes differ: %x %x %x", gp[:4], gr[:4], gz[:4])
+	h := &hier{prime: p, region: r, ghash: gp, nextDt: 1, nextCoinbase: chainCoinbase}
+	for zi := 0; zi < nzones; zi++ {
+		loc := common.Location{0, byte(zi)}
+		z, gz, eng, err := newHLevel(mk(loc), loc, allocs, nzones)
+		if err != nil {
+			return nil, err
+		}
+		if gz != gp {
+			return nil, fmt.Errorf("genesis hashes differ: %x %x", gp[:4], gz[:4])
+		}
+		h.zones = append(h.zones, z)
+		h.eng = eng
 	}
+	// wire the levels only once all of them exist (a chain starts handing its genesis pending header down as soon as
+	// it has a subordinate)
 	p.cr.SetSubInterface(hBackend{r.cr, r}, common.Location{0})
 	r.cr.SetDomInterface(hBackend{p.cr, p})
-	r.cr.SetSubInterface(hBackend{z.cr, z}, common.Location{0, 0})
-	z.cr.SetDomInterface(hBackend{r.cr, r})
-	h := &hier{prime: p, region: r, zone: z, eng: eng, ghash: gz, nextDt: 1, nextCoinbase: chainCoinbase}
-	g := z.hc.GetBlockByHash(gz)
-	p.tip, r.tip, z.tip = g, g, g
-	// the coordinator's start: prime generates the genesis pending header and hands it down
-	if err := p.sl.NewGenesisPendingHeader(nil, gz, gz); err != nil {
-		return nil, fmt.Errorf("genesis pending header: %w", err)
+	for _, z := range h.zones {
+		r.cr.SetSubInterface(hBackend{z.cr, z}, z.loc)
+		z.cr.SetDomInterface(hBackend{r.cr, r})
 	}
-	for i := 0; i < 200 && z.sl.ReadBestPh() == nil; i++ {
+	h.zone = h.zones[0]
+	g := h.zone.hc.GetBlockByHash(gp)
+	p.tip, r.tip = g, g
+	for _, z := range h.zones {
+		z.tip = g
+	}
+	// the coordinator's start: prime's own start-up goroutine (Slice.init) generates the genesis pending header as soon
+	// as prime has a subordinate and hands it down.  It must not be called a second time concurrently: two concurrent
+	// GeneratePendingHeader calls on one worker can deadlock (prepareWork holds worker.mu.RLock and calls
+	// GetLockupByte, which takes it again; a pickCoinbases writer arriving in between blocks both).
+	arrived := func() bool {
+		for _, z := range h.zones {
+			if z.sl.ReadBestPh() == nil {
+				return false
+			}
+		}
+		return true
+	}
+	for i := 0; i < 600 && !arrived(); i++ {
 		time.Sleep(5 * time.Millisecond)
 	}
-	if z.sl.ReadBestPh() == nil {
-		return nil, fmt.Errorf("zone never received the genesis pending header")
+	if !arrived() {
+		if err := p.sl.NewGenesisPendingHeader(nil, gp, gp); err != nil {
+			return nil, fmt.Errorf("genesis pending header: %w", err)
+		}
+		for i := 0; i < 600 && !arrived(); i++ {
+			time.Sleep(5 * time.Millisecond)
+		}
+	}
+	if !arrived() {
+		return nil, fmt.Errorf("a zone never received the genesis pending header")
 	}
 	return h, nil
 }
@@ -143,15 +189,28 @@ func (h *hier) asZoneNode() *zoneNode {
 }
 
 func (h *hier) stop() {
-	for _, l := range []*hLevel{h.zone, h.region, h.prime} {
-		func() { defer func() { recover() }(); l.cr.Stop() }()
+	done := make(chan struct{}, 8)
+	ls := append(append([]*hLevel{}, h.zones...), h.region, h.prime)
+	for _, l := range ls {
+		go func(l *hLevel) {
+			defer func() { recover(); done <- struct{}{} }()
+			l.sl.Stop()
+		}(l)
+	}
+	to := time.After(3 * time.Second)
+	for range ls {
+		select {
+		case <-done:
+		case <-to:
+			return
+		}
 	}
 }
 
 // seal finds a nonce that meets the target and gives the block the wanted order
-func (h *hier) seal(ph *types.WorkObject, want int) *types.WorkObject {
+func (h *hier) seal(z *hLevel, ph *types.WorkObject, want int) *types.WorkObject {
 	wh := ph.WorkObjectHeader()
-	wh.SetLocation(h.zone.loc)
+	wh.SetLocation(z.loc)
 	wh.SetAuxPow(nil)
 	if wh.PrimeTerminusNumber().Uint64() < params.KawPowForkBlock {
 		wh.SetShaDiffAndCount(types.NewPowShareDiffAndCount(nil, nil, nil))
@@ -161,36 +220,57 @@ func (h *hier) seal(ph *types.WorkObject, want int) *types.WorkObject {
 		wh.SetKawpowDifficulty(nil)
 	}
 	target := new(big.Int).Div(common.Big2e256, ph.Difficulty())
+	// the order a seal gives depends on the entropy accumulated since the last dominant block: once that is large, every
+	// seal is of region or prime order.  The wanted order is looked for among the first seals; failing that, the first
+	// seal found is taken whatever its order.
+	var fallback uint64
+	found := 0
 	for nonce := uint64(0); nonce < 50_000_000; nonce++ {
 		wh.SetNonce(types.EncodeNonce(nonce))
 		hs, _ := h.eng.ComputePowHash(wh)
 		if new(big.Int).SetBytes(hs.Bytes()).Cmp(target) <= 0 {
-			if _, order, err := h.zone.hc.CalcOrder(ph); err == nil && order == want {
+			if _, order, err := z.hc.CalcOrder(ph); err == nil && order == want {
 				return types.NewWorkObject(wh, ph.Body(), nil)
+			}
+			if found == 0 {
+				fallback = nonce
+			}
+			found++
+			if found >= 12 {
+				break
 			}
 		}
 	}
-	return nil
+	if found == 0 {
+		return nil
+	}
+	wh.SetNonce(types.EncodeNonce(fallback))
+	return types.NewWorkObject(wh, ph.Body(), nil)
 }
 
-// next: pending header from the zone, sealed with the wanted order
-func (h *hier) next(want int) (*types.WorkObject, error) {
+// next: pending header from the first zone, sealed with the wanted order
+func (h *hier) next(want int) (*types.WorkObject, error) { return h.nextAt(h.zone, want) }
+
+func (h *hier) nextAt(z *hLevel, want int) (*types.WorkObject, error) {
 	// the miner picks the timestamp: it is written into the zone's best pending header before the header is handed
 	// out, so that the body the worker caches for it is keyed by the seal hash the miner will actually seal
-	if best := h.zone.sl.ReadBestPh(); best != nil {
-		if parent := h.zone.hc.GetHeaderByHash(best.ParentHash(common.ZONE_CTX)); parent != nil {
+	if best := z.sl.ReadBestPh(); best != nil {
+		if parent := z.hc.GetHeaderByHash(best.ParentHash(common.ZONE_CTX)); parent != nil {
 			best.WorkObjectHeader().SetTime(parent.Time() + h.nextDt)
 			if h.nextData != nil {
 				best.WorkObjectHeader().SetData(h.nextData)
 			}
-			h.zone.sl.WriteBestPh(best)
+			z.sl.WriteBestPh(best)
 		}
 	}
-	ph, err := h.zone.sl.GetPendingHeader(types.Progpow, h.nextCoinbase)
+	ph, err := z.sl.GetPendingHeader(types.Progpow, h.nextCoinbase)
 	if err != nil {
 		return nil, fmt.Errorf("get pending header: %w", err)
 	}
-	blk := h.seal(ph, want)
+	if ph.ParentHash(common.ZONE_CTX) != z.hc.CurrentHeader().Hash() {
+		return nil, fmt.Errorf("%w: the zone's pending header is not built on its head", errHierStuck)
+	}
+	blk := h.seal(z, ph, want)
 	if blk == nil {
 		return nil, fmt.Errorf("no seal of order %d found", want)
 	}
@@ -201,18 +281,20 @@ func (h *hier) next(want int) (*types.WorkObject, error) {
 // prime block - reports it upwards, where each dominant chain builds and stores its own view; the chain of the
 // block's order then inserts it (which appends it down through its subordinates); finally the pending headers are
 // recomputed on the new tips.
-func (h *hier) add(sealed *types.WorkObject) (*types.WorkObject, error) {
-	levels := []*hLevel{h.prime, h.region, h.zone}
+func (h *hier) add(sealed *types.WorkObject) (*types.WorkObject, error) { return h.addAt(h.zone, sealed) }
+
+func (h *hier) addAt(z *hLevel, sealed *types.WorkObject) (*types.WorkObject, error) {
+	levels := []*hLevel{h.prime, h.region, z}
 	for _, l := range levels {
 		l.mined, l.minedErr = nil, nil
 	}
-	zblk, err := h.zone.cr.ReceiveMinedHeader(sealed)
+	zblk, err := z.cr.ReceiveMinedHeader(sealed)
 	if err != nil {
 		return nil, fmt.Errorf("zone ReceiveMinedHeader: %w", err)
 	}
-	h.zone.sl.WriteBlock(zblk)
-	h.zone.mined = zblk
-	_, order, err := h.zone.hc.CalcOrder(zblk)
+	z.sl.WriteBlock(zblk)
+	z.mined = zblk
+	_, order, err := z.hc.CalcOrder(zblk)
 	if err != nil {
 		return zblk, err
 	}
@@ -222,13 +304,31 @@ func (h *hier) add(sealed *types.WorkObject) (*types.WorkObject, error) {
 		}
 	}
 	top := levels[order]
-	if _, err := top.cr.InsertChain(types.WorkObjects{top.mined}); err != nil {
-		return zblk, fmt.Errorf("insert at %v (order %d): %w", top.loc, order, err)
+	appended := func() (bool, *hLevel) {
+		for i := order; i <= common.ZONE_CTX; i++ {
+			if levels[i].hc.GetHeaderByHash(zblk.Hash()) == nil || levels[i].hc.GetTerminiByHash(zblk.Hash()) == nil {
+				return false, levels[i]
+			}
+		}
+		return true, nil
+	}
+	// InsertChain does not report "cannot append yet" conditions (a subordinate's pending ETXs still on their way
+	// up): the block stays in the chain's append queue and is retried.  The coordinator does the same.
+	var lastErr error
+	for try := 0; try < 40; try++ {
+		if _, err := top.cr.InsertChain(types.WorkObjects{top.mined}); err != nil {
+			lastErr = err
+		}
+		if ok, _ := appended(); ok {
+			break
+		}
+		h.retries++
+		time.Sleep(25 * time.Millisecond)
+	}
+	if ok, at := appended(); !ok {
+		return zblk, fmt.Errorf("%w: block not appended at %v after insert (order %d): %v", errHierStuck, at.loc, order, lastErr)
 	}
 	for i := order; i <= common.ZONE_CTX; i++ {
-		if levels[i].hc.GetHeaderByHash(zblk.Hash()) == nil || levels[i].hc.GetTerminiByHash(zblk.Hash()) == nil {
-			return zblk, fmt.Errorf("block not appended at %v after insert (order %d)", levels[i].loc, order)
-		}
 		levels[i].tip = levels[i].mined
 	}
 	return zblk, h.pendingHeaders()
@@ -239,15 +339,18 @@ func (h *hier) pendingHeaders() error {
 	if err != nil {
 		return fmt.Errorf("prime pending header: %w", err)
 	}
+	h.primePH = pp
 	rp, err := h.region.sl.GeneratePendingHeader(h.region.tip, false)
 	if err != nil {
 		return fmt.Errorf("region pending header: %w", err)
 	}
-	zp, err := h.zone.sl.GeneratePendingHeader(h.zone.tip, true)
-	if err != nil {
-		return fmt.Errorf("zone pending header: %w", err)
+	for _, z := range h.zones {
+		zp, err := z.sl.GeneratePendingHeader(z.tip, true)
+		if err != nil {
+			return fmt.Errorf("zone %v pending header: %w", z.loc, err)
+		}
+		z.sl.MakeFullPendingHeader(types.CopyWorkObject(pp), types.CopyWorkObject(rp), zp)
 	}
-	h.zone.sl.MakeFullPendingHeader(pp, rp, zp)
 	return nil
 }
 
@@ -277,6 +380,62 @@ func runHierDbg(seed uint64, n int, outDir string, replay string) {
 		}
 		sc := scanLedger(w.node.db, w.node.loc)
 		fmt.Fprintln(os.Stderr, "block", blk.NumberArray(), "order", st.order, "txs", len(blk.Transactions()), "inboundETXs", ne, "out", len(blk.OutboundEtxs()), "utxos", len(sc.utxos), "lockups", len(sc.lockups), "rootok", sc.root() == blk.UTXORoot())
+	}
+	fmt.Fprintln(os.Stderr, w.hist)
+}
+
+func init() { areas["hier2"] = runHier2Dbg }
+
+// runHier2Dbg: two zones under one region; the first zone runs chainworld, the second only mines
+func runHier2Dbg(seed uint64, n int, outDir string, replay string) {
+	cwSetParams(cwRegime{})
+	params.ControllerKickInBlock = 2
+	rc := h2.NewRng(seed)
+	w, err := newHierWorldN(rc, cwRegime{}, 2)
+	if err != nil {
+		fmt.Println("ERR", err)
+		return
+	}
+	hr := w.node.h
+	defer hr.stop()
+	z1 := hr.zones[1]
+	for i := 0; i < n; i++ {
+		if rc.Chance(40) {
+			want := common.ZONE_CTX
+			if rc.Chance(35) {
+				want = common.REGION_CTX
+				if rc.Chance(40) {
+					want = common.PRIME_CTX
+				}
+			}
+			hr.nextDt, hr.nextCoinbase, hr.nextData = 1, chainCoinbase, []byte{0}
+			blk, err := hr.nextAt(z1, want)
+			if err != nil {
+				fmt.Fprintln(os.Stderr, "zone1 next", i, "ERR", err)
+				break
+			}
+			zb, err := hr.addAt(z1, blk)
+			if err != nil {
+				fmt.Fprintln(os.Stderr, "zone1 add", i, "ERR", err)
+				break
+			}
+			fmt.Fprintln(os.Stderr, "zone1 block", zb.NumberArray(), "order", want, "txs", len(zb.Transactions()), "out", len(zb.OutboundEtxs()))
+			continue
+		}
+		st, err := w.step()
+		if err != nil {
+			fmt.Fprintln(os.Stderr, "step", i, "ERR", err)
+			break
+		}
+		blk := st.blk
+		ne := 0
+		for _, tx := range blk.Transactions() {
+			if tx.Type() == types.ExternalTxType {
+				ne++
+			}
+		}
+		sc := scanLedger(w.node.db, w.node.loc)
+		fmt.Fprintln(os.Stderr, "zone0 block", blk.NumberArray(), "order", st.order, "txs", len(blk.Transactions()), "inboundETXs", ne, "out", len(blk.OutboundEtxs()), "utxos", len(sc.utxos), "lockups", len(sc.lockups), "rootok", sc.root() == blk.UTXORoot())
 	}
 	fmt.Fprintln(os.Stderr, w.hist)
 }
